@@ -678,6 +678,9 @@ func (b *BMC) script(query string, K int) (string, map[string]string) {
 		}
 		for _, c := range b.chans {
 			w("(declare-const closed_%s_%d Bool)", c, k)
+			if b.tr.Objects[c].Cap > 0 {
+				w("(declare-const cnt_%s_%d (_ BitVec 8))", c, k)
+			}
 		}
 		for _, m := range b.mutexes {
 			w("(declare-const held_%s_%d Bool)", m, k)
@@ -710,7 +713,11 @@ func (b *BMC) script(query string, K int) (string, map[string]string) {
 	}
 	for _, c := range b.chans {
 		w("(assert (not closed_%s_0))", c)
+		if b.tr.Objects[c].Cap > 0 {
+			w("(assert (= cnt_%s_0 #x00))", c)
+		}
 	}
+	capOf := func(c string) int { return b.tr.Objects[c].Cap }
 	for _, m := range b.mutexes {
 		w("(assert (not held_%s_0))", m)
 	}
@@ -784,6 +791,7 @@ func (b *BMC) script(query string, K int) (string, map[string]string) {
 			w("(declare-const pe_%d (_ BitVec %d))", k, edW)
 		}
 		closedNext := map[string][]string{}
+		cntEff := map[string][]effect{}
 		heldSet := map[string][]string{}
 		heldClr := map[string][]string{}
 		wgEff := map[string][]effect{}
@@ -871,7 +879,13 @@ func (b *BMC) script(query string, K int) (string, map[string]string) {
 					// default: no case can proceed
 					var none []string
 					for _, c := range ev.Cases {
-						if c.Send {
+						if capOf(c.Obj) > 0 {
+							if c.Send {
+								none = append(none, not(or(fmt.Sprintf("(bvult cnt_%s_%d %s)", c.Obj, k, bv(8, capOf(c.Obj))), fmt.Sprintf("closed_%s_%d", c.Obj, k))))
+							} else {
+								none = append(none, not(or(fmt.Sprintf("(not (= cnt_%s_%d #x00))", c.Obj, k), fmt.Sprintf("closed_%s_%d", c.Obj, k))))
+							}
+						} else if c.Send {
 							none = append(none, not(or(fmt.Sprintf("rdyr_%s_%d", c.Obj, k), fmt.Sprintf("closed_%s_%d", c.Obj, k))))
 						} else {
 							none = append(none, not(or(fmt.Sprintf("rdys_%s_%d", c.Obj, k), fmt.Sprintf("closed_%s_%d", c.Obj, k))))
@@ -881,8 +895,33 @@ func (b *BMC) script(query string, K int) (string, map[string]string) {
 					enabled = append(enabled, and(pre, and(none...)))
 					pcEff[i] = append(pcEff[i], effect{fire, bv(pcW, e.to)})
 				case isChan && role.closed:
-					valid = append(valid, and(base, noPartner, fmt.Sprintf("closed_%s_%d", role.ch, k), posts(fire, nil, postSrc{ev, bt, i})))
-					enabled = append(enabled, and(pre, fmt.Sprintf("closed_%s_%d", role.ch, k)))
+					cl := fmt.Sprintf("closed_%s_%d", role.ch, k)
+					if capOf(role.ch) > 0 {
+						cl = and(cl, fmt.Sprintf("(= cnt_%s_%d #x00)", role.ch, k))
+					}
+					valid = append(valid, and(base, noPartner, cl, posts(fire, nil, postSrc{ev, bt, i})))
+					enabled = append(enabled, and(pre, cl))
+					pcEff[i] = append(pcEff[i], effect{fire, bv(pcW, e.to)})
+				case isChan && capOf(role.ch) > 0:
+					// buffered channel (payload not tracked): a counter
+					if ev.Val != nil || ev.Sym != nil {
+						panic("bmc: buffered channel " + role.ch + " carries a tracked payload (unsupported)")
+					}
+					cnt := fmt.Sprintf("cnt_%s_%d", role.ch, k)
+					if role.send {
+						room := and(not(fmt.Sprintf("closed_%s_%d", role.ch, k)), fmt.Sprintf("(bvult %s %s)", cnt, bv(8, capOf(role.ch))))
+						valid = append(valid, and(base, noPartner, room, posts(fire, nil, postSrc{ev, bt, i})))
+						enabled = append(enabled, and(pre, or(room, fmt.Sprintf("closed_%s_%d", role.ch, k))))
+						pan := and(base, noPartner, fmt.Sprintf("closed_%s_%d", role.ch, k))
+						valid = append(valid, pan)
+						badTerms = append(badTerms, flag("bad", "send on closed channel "+role.ch+" at "+ev.Pos, pan))
+						cntEff[role.ch] = append(cntEff[role.ch], effect{and(fire, room), fmt.Sprintf("(bvadd %s #x01)", cnt)})
+					} else {
+						some := fmt.Sprintf("(not (= %s #x00))", cnt)
+						valid = append(valid, and(base, noPartner, some, posts(fire, nil, postSrc{ev, bt, i})))
+						enabled = append(enabled, and(pre, some))
+						cntEff[role.ch] = append(cntEff[role.ch], effect{fire, fmt.Sprintf("(bvsub %s #x01)", cnt)})
+					}
 					pcEff[i] = append(pcEff[i], effect{fire, bv(pcW, e.to)})
 				case isChan && role.send:
 					// (a) rendezvous with a receiver (this instance is the primary)
@@ -1036,6 +1075,9 @@ func (b *BMC) script(query string, K int) (string, map[string]string) {
 		}
 		for _, c := range b.chans {
 			w("(assert (= closed_%s_%d (or closed_%s_%d %s)))", c, k+1, c, k, and(not(stut), or(closedNext[c]...)))
+			if capOf(c) > 0 {
+				w("(assert (= cnt_%s_%d (ite %s cnt_%s_%d %s)))", c, k+1, stut, c, k, chain(fmt.Sprintf("cnt_%s_%d", c, k), cntEff[c]))
+			}
 		}
 		for _, m := range b.mutexes {
 			w("(assert (= held_%s_%d (ite %s true (ite %s false held_%s_%d))))", m, k+1, and(not(stut), or(heldSet[m]...)), and(not(stut), or(heldClr[m]...)), m, k)
@@ -1079,6 +1121,84 @@ func (b *BMC) script(query string, K int) (string, map[string]string) {
 				}
 			}
 		}
+	}
+	if query == "race" {
+		// two different instances are each about to perform a plain (non-atomic)
+		// access to the same declared shared variable, at least one of them a write
+		type acc struct {
+			inst, edge int
+			store      bool
+			cell, pos  string
+		}
+		var accs []acc
+		for i := 0; i < len(b.insts); i++ {
+			for _, e := range b.tmpls[b.insts[i]].edges {
+				if (e.ev.Kind == "load" || e.ev.Kind == "store") && e.ev.Plain {
+					accs = append(accs, acc{i, e.id, e.ev.Kind == "store", e.ev.Obj, e.ev.Pos})
+				}
+			}
+		}
+		var bads []string
+		for k := 0; k < K; k++ {
+			for x := 0; x < len(accs); x++ {
+				for y := x + 1; y < len(accs); y++ {
+					a, c := accs[x], accs[y]
+					if a.inst == c.inst || a.cell != c.cell || !(a.store || c.store) {
+						continue
+					}
+					bads = append(bads, flag("race", fmt.Sprintf("unsynchronised accesses to %s at %s and %s", a.cell, a.pos, c.pos),
+						and(fmt.Sprintf("pre_%d_%d_%d", a.inst, a.edge, k), fmt.Sprintf("pre_%d_%d_%d", c.inst, c.edge, k))))
+				}
+			}
+		}
+		w("(assert %s)", or(bads...))
+	}
+	if strings.HasPrefix(query, "growth:") {
+		// growth:<chan substring>:<busy ghost cell>:<max symbol>: a released hit is
+		// pending (a thread blocks sending on the channel, or a value sits in its
+		// buffer) while fewer than max are busy and no thread is at a receive
+		f := strings.Split(query, ":")
+		var ch string
+		for _, c := range b.chans {
+			if strings.Contains(c, f[1]) {
+				ch = c
+			}
+		}
+		var bads []string
+		for k := 0; k <= K && ch != ""; k++ {
+			var pending, idle []string
+			for i := 0; i < len(b.insts); i++ {
+				bt := b.tmpls[b.insts[i]]
+				for _, e := range bt.edges {
+					r, ok := roleOf(e.ev)
+					if !ok || r.isDeflt || r.closed || r.ch != ch {
+						continue
+					}
+					at := fmt.Sprintf("pre_%d_%d_%d", i, e.id, k)
+					if k == K {
+						// pre_* is defined per step of the unrolling only
+						var gs []string
+						for _, g := range e.guards {
+							gs = append(gs, b.termStr(g, bt, i))
+						}
+						at = and(append([]string{fmt.Sprintf("(= pc_%d_%d %s)", i, k, bv(pcW, e.from))}, gs...)...)
+					}
+					if r.send && !r.nonblock {
+						pending = appendUnique(pending, at)
+					}
+					if !r.send {
+						idle = appendUnique(idle, at)
+					}
+				}
+			}
+			if capOf(ch) > 0 {
+				pending = append(pending, fmt.Sprintf("(not (= cnt_%s_%d #x00))", ch, k))
+			}
+			bads = append(bads, flag("growth", fmt.Sprintf("a released hit waits at step %d although fewer than max-workers are busy and no worker is idle", k),
+				and(or(pending...), fmt.Sprintf("(bvult val_cell_ghost_%s_%d %s)", f[2], k, f[3]), not(or(idle...)))))
+		}
+		w("(assert %s)", or(bads...))
+		query = "growth"
 	}
 	label := ""
 	if strings.HasPrefix(query, "bad:") {
@@ -1148,7 +1268,7 @@ func (b *BMC) script(query string, K int) (string, map[string]string) {
 		}
 	}
 	sort.Strings(flagNames)
-	if len(flagNames) > 0 && (query == "bad" || query == "cut") {
+	if len(flagNames) > 0 && (query == "bad" || query == "cut" || query == "growth" || query == "race") {
 		w("(get-value (%s))", strings.Join(flagNames, " "))
 	}
 	var names []string
@@ -1235,13 +1355,13 @@ func (b *BMC) emitPOR(sb *strings.Builder, K int) {
 }
 
 // Solve runs one query and, if sat, decodes the schedule.
-func (b *BMC) Solve(query string, K int, timeout time.Duration, solver string) (smt.Result, []string, time.Duration) {
+func (b *BMC) Solve(parent context.Context, query string, K int, timeout time.Duration, solver string) (smt.Result, []string, time.Duration) {
 	script, flags := b.Script(query, K)
 	if p := os.Getenv("VERIF_BMCLOG"); p != "" {
 		os.WriteFile(fmt.Sprintf("%s.%s.smt2", p, query), []byte(script), 0o644)
 	}
 	t0 := time.Now()
-	ctx, cancel := context.WithTimeout(context.Background(), timeout)
+	ctx, cancel := context.WithTimeout(parent, timeout)
 	defer cancel()
 	cmd := exec.CommandContext(ctx, solver, "-in")
 	cmd.Stdin = strings.NewReader(script)
@@ -1330,8 +1450,10 @@ func (b *BMC) decode(model string, K int, flagDescr map[string]string) []string 
 		}
 	}
 	sort.Strings(fl)
-	for _, d := range fl {
-		trace = append(trace, "** "+d)
+	for n, d := range fl {
+		if n == 0 || fl[n-1] != d {
+			trace = append(trace, "** "+d)
+		}
 	}
 	for k := 0; k < K; k++ {
 		if vals[fmt.Sprintf("st_%d", k)] == "true" {
